@@ -13,7 +13,33 @@ def _rows(codes, shape):
     return [[wint(codes[i * c + j]) for j in range(c)] for i in range(r)]
 
 
-def observe_reduce(fx, np, props, fn, route, t, codes, shape, axis=None, offset=0, lohi=None, t2=None, codes2=None, shape2=None):
+def derived(fx, np, t, codes, shape, via):
+    """an Fxp holding `codes` with `shape`, obtained from a PARENT object by a derivation that replaces the raw array
+    without a store (history): transpose of the transposed parent, a row / a column / a slice of a bigger parent"""
+    if via == 'T':
+        if len(shape) == 1:
+            return mk(fx, np, t, codes, None).T
+        r, c = shape
+        tcodes = [codes[i * c + j] for j in range(c) for i in range(r)]
+        return mk(fx, np, t, tcodes, (c, r)).T
+    if via == 'row' and len(shape) == 1:
+        n = shape[0]
+        return mk(fx, np, t, [0] * n + list(codes) + [1 if t[1] > 1 or not t[0] else 0] * n, (3, n))[1]
+    if via == 'col' and len(shape) == 1:
+        n = shape[0]
+        flat = []
+        for c in codes:
+            flat += [0, c]
+        return mk(fx, np, t, flat, (n, 2))[:, 1]
+    if via == 'slice':
+        if len(shape) == 1:
+            return mk(fx, np, t, [0] + list(codes) + [0], None)[1:1 + shape[0]]
+        r, c = shape
+        return mk(fx, np, t, [0] * c + list(codes), (r + 1, c))[1:]
+    return mk(fx, np, t, codes, shape if len(shape) == 2 else None)
+
+
+def observe_reduce(fx, np, props, fn, route, t, codes, shape, axis=None, offset=0, lohi=None, t2=None, codes2=None, shape2=None, via='direct'):
     """codes: flat row-major list for an array of `shape` ((n,) or (r, c)) in format t."""
     ax = 'none' if (axis is None or len(shape) == 1) else str(axis)
     row = {'k': 'reduce', 'p': list(props), 'fn': fn, 'route': route + '.' + fn, 'axis': ax, 'x': dict(zip('swf', (bool(t[0]), t[1], t[2]))),
@@ -22,8 +48,11 @@ def observe_reduce(fx, np, props, fn, route, t, codes, shape, axis=None, offset=
            'y': dict(zip('swf', (bool(t2[0]), t2[1], t2[2]))) if t2 else {'s': False, 'w': 0, 'f': 0},
            'yrows': _rows(codes2, shape2) if t2 else [[]], 'yndim': len(shape2) if t2 else 0}
     try:
-        X = mk(fx, np, t, codes, shape if len(shape) == 2 else None)
-        Y = mk(fx, np, t2, codes2, shape2 if len(shape2) == 2 else None) if t2 else None
+        X = derived(fx, np, t, codes, shape, via)
+        if list(np.shape(X.val)) != list(shape) or common.codes_of(X) != list(codes):
+            raise AssertionError('harness: derived operand does not hold the intended codes')
+        row['route'] = route + '.' + fn + ('' if via == 'direct' else '/' + via)
+        Y = (derived(fx, np, t2, codes2, shape2, via if via in ('T', 'slice') else 'direct')) if t2 else None
         npr = route == 'np'
         kw = {} if axis is None else {'axis': axis}
         if fn in ('sum', 'cumsum', 'prod', 'cumprod', 'max', 'min'):
